@@ -1,7 +1,7 @@
 """Constants of conn.c / auth.c / event.c / common.h / strophe.h used by the connection models."""
 import re
 
-from extract import src, strip_comments, write, ExtractError, define, fn_body
+from extract import src, strip_comments, write, ExtractError, define, fn_body_x as fn_body
 
 
 def _read(path):
